@@ -84,17 +84,17 @@ func verifHarness_C12_decode_shared_codec() {
 	c.Write(w, unsafe.Pointer(&in))
 	enc := w.Bytes()
 	verifC12Prime()
-	verifMonitor(true)
-	out := new(verifC12T)
-	r := NewReadBuf(enc)
-	err = c.Read(r, unsafe.Pointer(out))
-	rb := r.ExtractResourceBank()
-	verifMonitor(false)
-	verifAssert(err == nil, "C12:decode-ok")
-	if err == nil {
-		verifAssert(verifC12Eq(&in, out), "C12:decode-result-as-when-running-alone")
-	}
-	_ = rb
+	verifConcurrently(func() {
+		out := new(verifC12T)
+		r := NewReadBuf(enc)
+		err := c.Read(r, unsafe.Pointer(out))
+		rb := r.ExtractResourceBank()
+		verifAssert(err == nil, "C12:decode-ok")
+		if err == nil {
+			verifAssert(verifC12Eq(&in, out), "C12:decode-result-as-when-running-alone")
+		}
+		verifKeepAlive(rb)
+	})
 	verifReach("end")
 }
 
@@ -109,27 +109,27 @@ func verifHarness_C12_encode_shared_codec() {
 	verifC12Fill(&in)
 	ref := NewWriteBuf(nil)
 	c.Write(ref, unsafe.Pointer(&in))
-	verifMonitor(true)
-	w := NewWriteBuf(nil)
-	c.Write(w, unsafe.Pointer(&in))
-	verifMonitor(false)
-	if len(in.M) < 2 {
-		verifAssert(refBytesEq(w.Bytes(), ref.Bytes()), "C12:encode-result-as-when-running-alone")
-	}
+	verifConcurrently(func() {
+		w := NewWriteBuf(nil)
+		c.Write(w, unsafe.Pointer(&in))
+		if len(in.M) < 2 {
+			verifAssert(refBytesEq(w.Bytes(), ref.Bytes()), "C12:encode-result-as-when-running-alone")
+		}
+	})
 	verifReach("end")
 }
 
 // building codecs and schemas consults the registries under their locks only
 func verifHarness_C12_build() {
 	verifAllocMax(4096)
-	verifMonitor(true)
-	s, err := SchemaForType(verifC12T{})
-	var c Codec
-	if err == nil {
-		c, err = s.Codec(verifC12T{})
-	}
-	verifMonitor(false)
-	verifAssert(err == nil && c != nil, "C12:build-ok")
+	verifConcurrently(func() {
+		s, err := SchemaForType(verifC12T{})
+		var c Codec
+		if err == nil {
+			c, err = s.Codec(verifC12T{})
+		}
+		verifAssert(err == nil && c != nil, "C12:build-ok")
+	})
 	verifReach("end")
 }
 
@@ -144,10 +144,12 @@ func verifHarness_C12_register() {
 		Register(typ, f)
 		RegisterSchema(typ, Schema{Type: "long"})
 	}
-	verifMonitor(true)
-	Register(typ, f)
-	RegisterSchema(typ, Schema{Type: "long"})
-	verifMonitor(false)
+	verifConcurrently(func() {
+		Register(typ, f)
+		RegisterSchema(typ, Schema{Type: "long"})
+		// a lookup racing with the registrations above
+		_, _ = SchemaForType(struct{ F verifC12Custom }{})
+	})
 	s, err := SchemaForType(struct{ F verifC12Custom }{})
 	verifAssert(err == nil && len(s.Object.Fields) == 1 && s.Object.Fields[0].Type.Type == "long", "C12:registration-took-effect")
 	verifReach("end")
@@ -159,14 +161,14 @@ func verifHarness_C12_readfile() {
 	comp := verifCompression(verifChoice("codec", 3))
 	f := verifBuildFile(comp, []int{2})
 	verifC12Prime()
-	verifMonitor(true)
-	sink := &verifSink{failAt: -1}
-	err := ReadFile(&verifReader{buf: f.data}, verifRec{}, sink.cb)
-	verifMonitor(false)
-	verifAssert(err == nil && len(sink.got) == 2, "C12:readfile-ok")
-	if err == nil && len(sink.got) == 2 {
-		verifAssert(verifAnd(verifRecEq(&sink.got[0], &f.recs[0][0]), verifRecEq(&sink.got[1], &f.recs[0][1])), "C12:readfile-result-as-when-running-alone")
-	}
+	verifConcurrently(func() {
+		sink := &verifSink{failAt: -1}
+		err := ReadFile(&verifReader{buf: f.data}, verifRec{}, sink.cb)
+		verifAssert(err == nil && len(sink.got) == 2, "C12:readfile-ok")
+		if err == nil && len(sink.got) == 2 {
+			verifAssert(verifAnd(verifRecEq(&sink.got[0], &f.recs[0][0]), verifRecEq(&sink.got[1], &f.recs[0][1])), "C12:readfile-result-as-when-running-alone")
+		}
+	})
 	verifReach("end")
 }
 
